@@ -277,6 +277,18 @@ V("C04", "torch-root2-import-time-tensor", "fire", "C04.R9", "sqrt(2) of torch n
   ("src/pyhf/tensor/pytorch_backend.py", '        return 0.5 * torch.erfc(-((x - mu) * sigma.reciprocal() / math.sqrt(2)))', '        return 0.5 * torch.erfc(-((x - mu) * sigma.reciprocal() / _ROOT2))'), ("src/pyhf/tensor/pytorch_backend.py", 'log = logging.getLogger(__name__)\n', 'log = logging.getLogger(__name__)\n_ROOT2 = torch.tensor(math.sqrt(2.0))\n'))
 V("C04", "torch-root2-module-float", "silent", "", "sqrt(2) of torch normal_cdf becomes a module-level python float",
   ("src/pyhf/tensor/pytorch_backend.py", '        return 0.5 * torch.erfc(-((x - mu) * sigma.reciprocal() / math.sqrt(2)))', '        return 0.5 * torch.erfc(-((x - mu) * sigma.reciprocal() / _ROOT2))'), ("src/pyhf/tensor/pytorch_backend.py", 'log = logging.getLogger(__name__)\n', 'log = logging.getLogger(__name__)\n_ROOT2 = math.sqrt(2.0)\n'))
+V("C01", "torch-where-branches-swapped", "fire", "C01.R15", "pytorch where() hands the two value tensors over in the other order",
+  ("src/pyhf/tensor/pytorch_backend.py", "return torch.where(mask, tensor_in_1, tensor_in_2)", "return torch.where(mask, tensor_in_2, tensor_in_1)"))
+V("C01", "tf-concat-axis-constant", "fire", "C01.R15", "tensorflow concatenate ignores the caller's axis",
+  ("src/pyhf/tensor/tensorflow_backend.py", "return tf.concat(sequence, axis=axis)", "return tf.concat(sequence, axis=0)"))
+V("C01", "torch-clamp-bounds-swapped", "fire", "C01.R15", "pytorch clip passes max as min",
+  ("src/pyhf/tensor/pytorch_backend.py", "return torch.clamp(tensor_in, min_value, max_value)", "return torch.clamp(tensor_in, max_value, min_value)"))
+V("C01", "jax-product-is-sum", "fire", "C01.R15", "jax product reduces with sum",
+  ("src/pyhf/tensor/jax_backend.py", "return jnp.prod(tensor_in, axis=axis)", "return jnp.sum(tensor_in, axis=axis)"))
+V("C01", "torch-sum-keyword-dim", "silent", "", "pytorch sum passes the axis by keyword",
+  ("src/pyhf/tensor/pytorch_backend.py", "else torch.sum(tensor_in, axis)", "else torch.sum(tensor_in, dim=axis)"))
+V("C01", "numpy-where-keywords", "silent", "", "numpy where passes the value tensors by keyword",
+  ("src/pyhf/tensor/numpy_backend.py", "return np.where(mask, tensor_in_1, tensor_in_2)", "return np.where(mask, x=tensor_in_1, y=tensor_in_2)"))
 
 # ------------------------------------------------------------------ C08
 INF = "src/pyhf/infer/__init__.py"
